@@ -192,6 +192,9 @@ func BuildRoot(w *World, root string, lib *OpLib) {
 		// rebalancing trades earn a bonus) whose rebalance treasury holds only the weight-breaking fee of
 		// one medium swap — less than two rebalancing bonuses
 		prefix = []string{"perp_open_long_t1", "perp_open_short_t2", "llp_open_t1_x3", "swap_in_p1_usdc_atom_L", "swap_in_p2_elys_usdc_L", "gap_1d", "mc_claim_lp1", "commit_eden_lp1", "vest_eden_lp1", "stake_elys_lp1", "create_oracle_pool_imbalanced_lp1", "swap_in_p3_usdc_atom_M"}
+	case "R18":
+		// R1 with a long, large external incentive (uatom) running on pool 2 for two blocks already
+		prefix = []string{"perp_open_long_t1", "perp_open_short_t2", "llp_open_t1_x3", "swap_in_p1_usdc_atom_L", "swap_in_p2_elys_usdc_L", "gap_1d", "mc_claim_lp1", "commit_eden_lp1", "vest_eden_lp1", "stake_elys_lp1", "ext_incentive_long_p2_lp1", "empty", "empty"}
 	case "R17":
 		// R8 grown old: 400 more days of Eden Boost, all of it COMMITTED (claimed bucket empty). The boost is
 		// now large enough that even the small share burnt by an Eden uncommit is a visible amount, and it
